@@ -15,6 +15,8 @@
 EXTENDS ContainerMC
 
 CONSTANTS NS,         \* number of service slots (2 or 3)
+          RefDepth,   \* how many script steps are also run through the reference (design-level check)
+          MaxEdges,   \* bound on the number of declared dependencies in a configuration
           Family      \* "F1": uniform lifetimes x all forms;  "F2": all lifetimes x forms that hit;  "F0": both free (NS=2)
 
 SlotsS == 0..(NS - 1)
@@ -27,8 +29,9 @@ AllForms == {"-", "p", "k", "g", "o"}
 
 ModeSpace == [SlotsS -> Modes3]
 LifeSpace == IF Family = "F1" THEN {[s \in SlotsS |-> l] : l \in Lifes3} ELSE [SlotsS -> Lifes3]
-FormSpace(m) == IF Family = "F2" THEN {f \in [Pairs -> AllForms] : \A p \in Pairs : f[p] \in {"-", HitForm(m[p[2]])}}
-                ELSE [Pairs -> AllForms]
+EdgeSets == {E \in SUBSET Pairs : Cardinality(E) <= MaxEdges}
+GSpace(E, m) == IF Family = "F2" THEN {[p \in E |-> HitForm(m[p[2]])]} ELSE [E -> AllForms \ {"-"}]
+FormSpace(m) == UNION {{[p \in Pairs |-> IF p \in E THEN g[p] ELSE "-"] : g \in GSpace(E, m)} : E \in EdgeSets}
 
 ParamFor(j, form) == [t |-> SlotType(j), k |-> IF form = "k" THEN "k" ELSE NONE, g |-> IF form = "g" THEN "g" ELSE NONE,
                       opt |-> form = "o", b |-> NONE]
@@ -51,8 +54,6 @@ MkCfg(m, l, f) ==
                   name |-> IF m[i - 1] = "k" THEN "k" ELSE NONE, group |-> IF m[i - 1] = "g" THEN "g" ELSE NONE,
                   as |-> <<>>, params |-> ParamsOf(i - 1, f, 0), kind |-> ""]],
      faults |-> <<>>, closeerr |-> <<>>]
-
-SweepCfgs == UNION {{MkCfg(m, l, f) : l \in LifeSpace, f \in FormSpace(m)} : m \in ModeSpace}
 
 Op(op, sc, name, t, k, g) == [op |-> op, sc |-> sc, name |-> name, ctx |-> (IF sc = "prov" THEN "val" ELSE "nil"), t |-> t, k |-> k, g |-> g]
 
@@ -79,19 +80,28 @@ RunOp(s, o) ==
     ELSE IF o.op = "close" THEN RefClose(s, "close", o.sc)
     ELSE RefCloseProv(s)
 
-SInit == /\ \E c \in SweepCfgs : st = InitState(c)
+\* Init only fixes the registration modes (27 initial states); the Pick step chooses lifetimes and
+\* dependency forms, so that TLC's workers enumerate the configuration space in parallel.
+PickCfg(m) == [cid |-> "pick", regs |-> <<>>, faults |-> <<>>, closeerr |-> <<>>, modes |-> m]
+SInit == /\ \E m \in ModeSpace : st = [InitState(PickCfg(m)) EXCEPT !.phase = "pick"]
          /\ hist = <<>>
          /\ bad = {}
 
-SNext == LET sc == Script(st.cfg)
-             k  == Len(hist) + 1
-         IN /\ k <= Len(sc)
-            /\ (k = 1 \/ st.phase \in {"built", "closed"})
-            /\ Do(RunOp(st, sc[k]), sc[k])
+Pick == /\ st.phase = "pick"
+        /\ \E l \in LifeSpace, f \in FormSpace(st.cfg.modes) : st' = InitState(MkCfg(st.cfg.modes, l, f))
+        /\ UNCHANGED <<hist, bad>>
 
+Run == LET sc == Script(st.cfg)
+           k  == Len(hist) + 1
+       IN /\ st.phase # "pick"
+          /\ k <= Len(sc) /\ k <= RefDepth
+          /\ (k = 1 \/ st.phase \in {"built", "closed"})
+          /\ Do(RunOp(st, sc[k]), sc[k])
+
+SNext == Pick \/ Run
 SweepSpec == SInit /\ [][SNext]_vars
 
-SEmit == IF EmitOn /\ hist = <<>> THEN PrintT(<<"SCN", ToJson([cfg |-> st.cfg, ops |-> Script(st.cfg)])>>) ELSE TRUE
+SEmit == IF EmitOn /\ st.phase = "pick" THEN PrintT(<<"SCN", ToJson([cfg |-> st'.cfg, ops |-> Script(st'.cfg)])>>) ELSE TRUE
 
 \* sanity of the oracle itself: the reference builds exactly the buildable configurations
 VerdictConsistent == (st.phase = "built" => Buildable(st.cfg)) /\ (st.phase = "failed" => ~Buildable(st.cfg))
